@@ -237,4 +237,166 @@ theorem step_late_reply (cfg : Cfg) (st : St) (env : Env) (k : Nat) (r : Res) (q
   have hq' : reqGet { st with env := env } k = some q := hq
   simp [step, fuel, runActs, exec, hq', hp]
 
+/-! ### once closing, no bootstrap connection attempt is ever awaited again -/
+
+theorem NoBootConn_setUnaware {st : St} (h : NoBootConn st) (u : Nat) (f : Unaware → Unaware)
+    (hf : ∀ y j rest, (f y).st ≠ .bootConn j rest) : NoBootConn (setUnaware st u f) := by
+  intro x hx j rest
+  simp only [setUnaware, List.mem_map] at hx
+  obtain ⟨y, hy, rfl⟩ := hx
+  split
+  · exact hf y j rest
+  · exact h y hy j rest
+
+theorem NoBootConn_of_unawares {st st' : St} (h : NoBootConn st) (he : st'.unawares = st.unawares) : NoBootConn st' := by
+  intro x hx; rw [he] at hx; exact h x hx
+
+theorem NoBootConn_append {st st' : St} (h : NoBootConn st) (x : Unaware) (hx : x.st = .done)
+    (he : st'.unawares = st.unawares ++ [x]) : NoBootConn st' := by
+  intro y hy j rest
+  rw [he] at hy
+  rcases List.mem_append.mp hy with hy | hy
+  · exact h y hy j rest
+  · simp only [List.mem_singleton] at hy; subst hy; rw [hx]; exact fun hh => by cases hh
+
+theorem shuffle_unawares {α} {st st' : St} {xs ys : List α} (h : shuffle st xs = some (st', ys)) :
+    st'.unawares = st.unawares := by
+  unfold shuffle at h
+  split at h
+  · cases h
+  · simp only [Option.map_eq_some_iff] at h
+    obtain ⟨_, _, heq⟩ := h
+    cases heq; rfl
+
+theorem reqDone_unawares (st : St) (o : ReqOwner) (k : Nat) (r : Res) : (reqDone st o k r).1.unawares = st.unawares := by
+  unfold reqDone
+  split
+  · split <;> (try split) <;> rfl
+  · rfl
+  · rfl
+
+theorem cloadJoin_nbc {st : St} (h : NoBootConn st) (w : Waiter) (g : String) : NoBootConn (cloadJoin st w g).1 := by
+  unfold cloadJoin
+  split
+  · exact NoBootConn_of_unawares h rfl
+  · exact NoBootConn_append h _ rfl rfl
+
+theorem exec_closing_nbc (cfg : Cfg) (st : St) (a : Act) (h : st.closing = true) (hb : NoBootConn st) :
+    NoBootConn (exec cfg st a).1 := by
+  have hg := fun n => getBrokerClient_closing h n
+  cases a
+  all_goals simp only [exec, hg, h]
+  all_goals (repeat' split)
+  all_goals (try dsimp only)
+  all_goals (first
+    | exact hb
+    | exact NoBootConn_of_unawares hb rfl
+    | (rename_i hs; exact NoBootConn_of_unawares hb (shuffle_unawares hs))
+    | exact NoBootConn_of_unawares hb (reqDone_unawares _ _ _ _)
+    | exact cloadJoin_nbc hb _ _
+    | (exact absurd trivial (by assumption))
+    | (apply NoBootConn_setUnaware hb; intro y j rest hh; cases hh; done)
+    | exact NoBootConn_append hb _ rfl rfl
+    | (exact NoBootConn_of_unawares (NoBootConn_setUnaware hb _ _ (fun y j rest hh => by cases hh)) rfl)
+    | (simp_all; done))
+
+theorem runActs_closing_nbc (cfg : Cfg) : ∀ (fuel : Nat) (st : St) (acts : List Act) (obs : List Ob),
+    st.closing = true → NoBootConn st → NoBootConn (runActs cfg fuel st acts obs).1
+  | 0, st, acts, obs, _, hb => by simp only [runActs]; exact hb
+  | fuel+1, st, [], obs, _, hb => by simp only [runActs]; exact hb
+  | fuel+1, st, a :: rest, obs, h, hb => by
+    simp only [runActs]
+    exact runActs_closing_nbc cfg fuel _ _ _ (exec_closing cfg st a h).1 (exec_closing_nbc cfg st a h hb)
+
+theorem runActs_closing_state (cfg : Cfg) : ∀ (fuel : Nat) (st : St) (acts : List Act) (obs : List Ob),
+    st.closing = true → (runActs cfg fuel st acts obs).1.closing = true
+  | 0, st, acts, obs, h => by simp only [runActs]; exact h
+  | fuel+1, st, [], obs, h => by simp only [runActs]; exact h
+  | fuel+1, st, a :: rest, obs, h => by
+    simp only [runActs]
+    exact runActs_closing_state cfg fuel _ _ _ (exec_closing cfg st a h).1
+
+theorem fireDue_closing_nbc (cfg : Cfg) : ∀ (n : Nat) (st : St) (obs : List Ob),
+    st.closing = true → NoBootConn st → NoBootConn (fireDue cfg n st obs).1
+  | 0, st, obs, _, hb => by simp only [fireDue]; exact hb
+  | n+1, st, obs, h, hb => by
+    simp only [fireDue]
+    split
+    · exact hb
+    · split
+      · exact hb
+      · rename_i t rest _ _
+        have hb' : NoBootConn ({ st with timers := rest } : St) := hb
+        have h' : ({ st with timers := rest } : St).closing = true := h
+        exact fireDue_closing_nbc cfg n _ _ (runActs_closing_state cfg fuel _ _ _ h') (runActs_closing_nbc cfg fuel _ _ _ h' hb')
+
+/-- C20: a closed client in which no bootstrap connection attempt is awaited stays that way -/
+theorem step_closing_nbc (cfg : Cfg) (st : St) (env : Env) (e : Ev) (h : st.closing = true) (hb : NoBootConn st) :
+    NoBootConn (step cfg st env e).1 := by
+  have hb' : NoBootConn ({ st with env := env } : St) := hb
+  have h' : ({ st with env := env } : St).closing = true := h
+  cases e
+  case bootOk j =>
+    simp only [step]
+    split
+    · exact hb
+    · dsimp only
+      refine NoBootConn_of_unawares (NoBootConn_setUnaware hb' _ _ (fun y j rest hh => by cases hh)) rfl
+  case cancel o =>
+    simp only [step]
+    have hc := cancelOp_closing { st with env := env } o
+    apply runActs_closing_nbc cfg fuel _ _ _ (hc.1.trans h)
+    unfold cancelOp
+    repeat' split
+    all_goals (try dsimp only)
+    all_goals (first
+      | exact hb'
+      | exact NoBootConn_of_unawares hb' rfl)
+  case advance dt =>
+    simp only [step]
+    split
+    · exact hb
+    · exact fireDue_closing_nbc cfg _ _ _ h hb
+  case close o => simp only [step, h, if_true]; exact hb
+  case conn b v => simp only [step]; exact hb
+  case resetTopics ts => simp only [step]; exact hb
+  case load o topics =>
+    simp only [step]
+    exact runActs_closing_nbc cfg fuel _ _ _ h (NoBootConn_append hb' _ rfl rfl)
+  case cload o g =>
+    simp only [step]
+    have h2 : NoBootConn ({ st with env := env, liveOps := st.liveOps ++ [o] } : St) := hb
+    exact runActs_closing_nbc cfg fuel _ _ _ ((cloadJoin_closing _ _ _).trans h) (cloadJoin_nbc h2 _ _)
+  case srtc o g m =>
+    simp only [step]
+    split
+    · exact runActs_closing_nbc cfg fuel _ _ _ h (NoBootConn_of_unawares hb' rfl)
+    · have h2 : NoBootConn ({ st with env := env, liveOps := st.liveOps ++ [o], srtcs := st.srtcs ++ [{ r := st.srtcs.length, o := o, g := g, minTimeout := m, phase := .resolving }] } : St) := hb
+      exact runActs_closing_nbc cfg fuel _ _ _ ((cloadJoin_closing _ _ _).trans h) (cloadJoin_nbc h2 _ _)
+  case bootFail j =>
+    simp only [step]
+    split
+    · exact hb
+    · exact runActs_closing_nbc cfg fuel _ _ _ h hb'
+  case send o keys group foe expect =>
+    simp only [step]
+    split <;> exact runActs_closing_nbc cfg fuel _ _ _ h (NoBootConn_of_unawares hb' rfl)
+  all_goals (simp only [step]; exact runActs_closing_nbc cfg fuel _ _ _ h hb')
+
+/-- C20, trace level: after a closed state without awaited bootstrap connections, no event sequence
+    whatsoever makes the client connect, create a broker client, write a bootstrap request or issue a
+    request to a broker client. -/
+theorem closed_forever (cfg : Cfg) : ∀ (evs : List (Env × Ev)) (st : St), st.closing = true → NoBootConn st →
+    ∀ (pre : List (Env × Ev)) (e : Env × Ev) (post : List (Env × Ev)), evs = pre ++ e :: post →
+      ∀ o ∈ (step cfg (pre.foldl (fun s x => (step cfg s x.1 x.2).1) st) e.1 e.2).2, o.connects = false := by
+  intro evs st h hb pre
+  induction pre generalizing st evs with
+  | nil =>
+    intro e post _ o ho
+    exact (step_closing cfg st e.1 e.2 h hb).2 o ho
+  | cons x pre ih =>
+    intro e post _ o ho
+    simp only [List.foldl_cons] at ho
+    exact ih (pre ++ e :: post) _ (step_closing cfg st x.1 x.2 h hb).1 (step_closing_nbc cfg st x.1 x.2 h hb) e post rfl o ho
+
 end Afkak.ClientNet
